@@ -127,4 +127,20 @@ pub assume_specification<T: std::cmp::PartialEq + std::fmt::Display + std::fmt::
         r.name == e.name, r.text == e.text, r.standalone == e.standalone, r.count == e.count,
         r.children == e.children, r.position == e.position;
 
+// ---------- A9: Rust's allocation limit ----------
+// A Vec of a non-zero-sized element type holds at most isize::MAX bytes, hence fewer than isize::MAX elements
+// (std::vec::Vec documentation, "Guarantees").  Necessity<_>, String and u8 are never zero-sized.  Without this fact
+// Verus would have to flag harmless size arithmetic such as Vec::with_capacity(a.len() + b.len()).
+pub broadcast axiom fn axiom_vec_len_bound_necessity<T>(v: Vec<crate::necessity::Necessity<T>>)
+    ensures #[trigger] v@.len() <= isize::MAX as int;
+pub broadcast axiom fn axiom_vec_len_bound_string(v: Vec<String>)
+    ensures #[trigger] v@.len() <= isize::MAX as int;
+pub broadcast axiom fn axiom_vec_len_bound_u8(v: Vec<u8>)
+    ensures #[trigger] v@.len() <= isize::MAX as int;
+pub broadcast group group_vec_len_bounds {
+    axiom_vec_len_bound_necessity,
+    axiom_vec_len_bound_string,
+    axiom_vec_len_bound_u8,
+}
+
 } // verus!
